@@ -6,7 +6,9 @@ package c07
 import (
 	"bytes"
 	"context"
+	"errors"
 	"fmt"
+	"io"
 	"os"
 	"path/filepath"
 	"sync"
@@ -18,6 +20,7 @@ import (
 	"github.com/jamf/regatta/regattaserver"
 	"github.com/jamf/regatta/replication"
 	"github.com/jamf/regatta/replication/backup"
+	"github.com/jamf/regatta/replication/snapshot"
 	"github.com/jamf/regatta/storage"
 	"go.uber.org/zap"
 	"google.golang.org/grpc"
@@ -59,7 +62,10 @@ type Case struct {
 	MaxInMem    uint64 `json:"max_in_mem"`
 	Source      string `json:"source"`  // backup | snapshot
 	Writers     bool   `json:"writers"` // leader keeps writing while the stream is produced (snapshot source only)
-	Corrupt     int    `json:"corrupt"` // backup source: >0 = flip the byte at this offset (mod file size) of the backup file
+	Corrupt     int    `json:"corrupt"` // backup source: >0 = flip the byte at this offset (mod file size) of the backup file; -1 = put another VALID backup file (taken later) under the manifest; -2 = alter the checksum in the manifest
+	// PriorBroken > 0: before the restore under test an earlier restore of the same table breaks after PriorBroken records of a stream
+	// of stale pairs that is big enough to have proposed at least one batch (a retried restore / a recovery interrupted half way)
+	PriorBroken int `json:"prior_broken,omitempty"`
 }
 
 func genKVs(t *rapid.T, label string, minN, maxN int, large bool) []KV {
@@ -117,8 +123,14 @@ func genCase(t *rapid.T) Case {
 	}
 	if c.Source == "snapshot" {
 		c.Writers = rapid.IntRange(0, 2).Draw(t, "writers") == 0
-	} else if rapid.IntRange(0, 4).Draw(t, "corrupt") == 0 {
-		c.Corrupt = rapid.IntRange(1, 1<<20).Draw(t, "corruptAt")
+	} else if rapid.IntRange(0, 3).Draw(t, "corrupt") == 0 {
+		c.Corrupt = rapid.SampledFrom([]int{-1, -2, 0}).Draw(t, "corruptKind")
+		if c.Corrupt == 0 {
+			c.Corrupt = rapid.IntRange(1, 1<<20).Draw(t, "corruptAt")
+		}
+	}
+	if rapid.IntRange(0, 3).Draw(t, "prior") == 0 {
+		c.PriorBroken = rapid.IntRange(2, 6).Draw(t, "priorRecords")
 	}
 	return c
 }
@@ -261,6 +273,35 @@ func run(c Case, o *vt.Obs) *vt.Failure {
 		// tiny in-memory log sizes can reject the pre-load itself; that is configuration, not the property
 		c.Pre = nil
 	}
+	if c.PriorBroken > 0 {
+		// an earlier restore of this table that proposed at least one batch and then broke
+		vsize := 4 * 1024 * 1024 / 3 // unlimited log: batches of 4 MiB
+		if maxInMem > 0 {
+			vsize = int(min(max(maxInMem/4, 64), 512*1024))
+		}
+		sf, err := snapshot.NewTemp()
+		if err != nil {
+			vt.Inconclusive("C07 temp snapshot file: " + err.Error())
+			return nil
+		}
+		for i := 0; i <= c.PriorBroken; i++ {
+			cmd := &regattapb.Command{Table: []byte(name), Type: regattapb.Command_PUT, Kv: &regattapb.KeyValue{Key: []byte(fmt.Sprintf("stale-%04d", i)), Value: bytes.Repeat([]byte{'S'}, vsize)}}
+			b, _ := cmd.MarshalVT()
+			if _, err := sf.Write(b); err != nil {
+				vt.Inconclusive("C07 temp snapshot file: " + err.Error())
+				return nil
+			}
+		}
+		_ = sf.Sync()
+		_, _ = sf.Seek(0, 0)
+		rerr := target.E.Restore(name, &breakingReader{r: sf, after: c.PriorBroken})
+		_ = sf.Close()
+		_ = os.Remove(sf.Path())
+		if rerr == nil {
+			return vt.Failf(prop+"/broken-stream-accepted", 0, "restore from a stream that breaks after %d records reported success", c.PriorBroken)
+		}
+		o.Label("prior-interrupted-restore")
+	}
 	threshold := "none"
 	if c.ThresholdAt >= 0 {
 		threshold = "inside-stream"
@@ -372,6 +413,50 @@ func run(c Case, o *vt.Obs) *vt.Failure {
 			return vt.Failf(prop+"/read-error", 1, "%v", err)
 		}
 		corrupted := false
+		if c.Corrupt == -1 {
+			// a different, perfectly decodable backup file (taken after one more leader write) under the first manifest
+			if _, err := put(leader.E, name, []byte("~swapped-in"), []byte("from a later backup")); err != nil {
+				return vt.Failf(prop+"/leader-write-error", 1, "%v", err)
+			}
+			dir2, err := os.MkdirTemp(scratch(), "c07-backup2-")
+			if err != nil {
+				vt.Inconclusive("C07 scratch dir: " + err.Error())
+				return nil
+			}
+			defer os.RemoveAll(dir2)
+			man2, err := (&backup.Backup{Conn: leaderConn, Dir: dir2, Log: quietLog{}}).Backup()
+			if err != nil {
+				return vt.Failf(prop+"/backup-error", 1, "%v", err)
+			}
+			for _, mt := range man.Tables {
+				for _, mt2 := range man2.Tables {
+					if mt.Name == name && mt2.Name == name && mt.MD5 != mt2.MD5 {
+						b, _ := os.ReadFile(filepath.Join(dir2, mt2.FileName))
+						_ = os.WriteFile(filepath.Join(dir, mt.FileName), b, 0o644)
+						corrupted = true
+						o.Label("backup-file-swapped-for-another-valid-one")
+					}
+				}
+			}
+		} else if c.Corrupt == -2 {
+			mp := filepath.Join(dir, "manifest.json")
+			b, _ := os.ReadFile(mp)
+			for _, mt := range man.Tables {
+				if mt.Name == name && len(mt.MD5) > 0 {
+					alt := []byte(mt.MD5)
+					if alt[0] == '0' {
+						alt[0] = '1'
+					} else {
+						alt[0] = '0'
+					}
+					if nb := bytes.Replace(b, []byte(mt.MD5), alt, 1); !bytes.Equal(nb, b) {
+						_ = os.WriteFile(mp, nb, 0o644)
+						corrupted = true
+						o.Label("manifest-checksum-altered")
+					}
+				}
+			}
+		}
 		if c.Corrupt > 0 {
 			for _, mt := range man.Tables {
 				if mt.Name != name {
@@ -425,6 +510,21 @@ func run(c Case, o *vt.Obs) *vt.Failure {
 		return fmt.Sprintf("%d captured pairs, %d pre-restore pairs, max-in-mem-log-size %d (threshold at record %d, slack %d), source %s, writers %v, corrupt %d", len(c.Content), len(c.Pre), maxInMem, c.ThresholdAt, c.Slack, c.Source, c.Writers, c.Corrupt)
 	}
 	return nil
+}
+
+// breakingReader passes `after` records through and then fails.
+type breakingReader struct {
+	r     io.Reader
+	after int
+	n     int
+}
+
+func (b *breakingReader) Read(p []byte) (int, error) {
+	if b.n >= b.after {
+		return 0, errors.New("stream broken (injected)")
+	}
+	b.n++
+	return b.r.Read(p)
 }
 
 func scratch() string {
